@@ -1,6 +1,7 @@
 package main
 
 import (
+	"os"
 	"fmt"
 	"go/ast"
 	"go/types"
@@ -23,6 +24,7 @@ func (e *Exec) funcDeclOf(fn *ssa.Function) *ast.FuncDecl {
 
 // modSet is the statically computed set of things a loop may modify.
 type modSet struct {
+	fvs   map[*ssa.FreeVar]bool // captured variables of the function at hand that the loop assigns
 	cells map[*ssa.Alloc]bool
 	comps map[string]string // heap component -> sort
 	all   bool
@@ -39,6 +41,15 @@ func (e *Exec) loopMods(fr *frame, li *loopInfo) *modSet {
 	sort.Slice(blocks, func(i, j int) bool { return blocks[i].Index < blocks[j].Index })
 	for _, b := range blocks {
 		e.scanMods(fr.fn, b.Instrs, ms, seen, nil)
+	}
+	for fv := range ms.fvs {
+		for i, f := range fr.fn.FreeVars {
+			if f == fv && i < len(fr.bindings) {
+				if p, ok := fr.bindings[i].(*Ptr); ok && p.Kind == pHeap {
+					e.addHeapLeaves(p.Root, p.Path, ms)
+				}
+			}
+		}
 	}
 	return ms
 }
@@ -73,9 +84,21 @@ func (e *Exec) addCompsForAddr(addr ssa.Value, ms *modSet, bind map[*ssa.FreeVar
 		}
 		return
 	}
-	if fv, ok := root.(*ssa.FreeVar); ok && bind != nil {
+	if fv, ok := root.(*ssa.FreeVar); ok {
 		if bv, ok2 := bind[fv]; ok2 {
 			root = bv
+		} else {
+			// a captured variable of the closure under execution: resolved against the frame's bindings
+			if ms.fvs == nil {
+				ms.fvs = map[*ssa.FreeVar]bool{}
+			}
+			ms.fvs[fv] = true
+			if len(path) > 0 {
+				if pt, ok := fv.Type().Underlying().(*types.Pointer); ok {
+					e.addHeapLeaves(pt.Elem(), path, ms)
+				}
+			}
+			return
 		}
 	}
 	switch r := root.(type) {
@@ -133,7 +156,9 @@ func (e *Exec) scanMods(fn *ssa.Function, instrs []ssa.Instruction, ms *modSet, 
 			e.scanCallMods(fn, &x.Call, ms, seen, bind)
 		case *ssa.MakeChan:
 			ms.comps["G.ghost_closed"] = arraySort(SInt, SBool)
-		case *ssa.Send, *ssa.Select:
+		case *ssa.Send:
+			ms.comps["G.ghost_nsent"] = arraySort(SInt, SInt)
+		case *ssa.Select:
 		}
 	}
 }
@@ -376,6 +401,10 @@ func (e *Exec) namedLocal(fr *frame, st *State, name string, li *loopInfo) (Valu
 		return nil, false
 	}
 	p := fr.vals[best].(*Ptr)
+	if os.Getenv("GOVC_DEBUG") != "" && p.Kind == pCell {
+		_, has := st.cells[p.Cell]
+		fmt.Fprintf(os.Stderr, "  namedLocal %s: cell %s id=%d present=%v ncells=%d\n", name, p.Cell.name, p.Cell.id, has, len(st.cells))
+	}
 	return e.load(st, p), true
 }
 
@@ -455,6 +484,31 @@ func (e *Exec) loopHead(fr *frame, st *State, li *loopInfo, c *Contract, setVari
 		v := e.smt.fresh(cell.name, e.ti.sortOf(cell.typ))
 		st.cells[cell] = v
 		e.assume(st, e.wellTypedDeep(st, cell.typ, v))
+	}
+	var fvl []*ssa.FreeVar
+	for fv := range ms.fvs {
+		fvl = append(fvl, fv)
+	}
+	sort.Slice(fvl, func(i, j int) bool { return fvl[i].Name() < fvl[j].Name() })
+	for _, fv := range fvl {
+		for i, f := range fr.fn.FreeVars {
+			if f != fv || i >= len(fr.bindings) {
+				continue
+			}
+			p, ok := fr.bindings[i].(*Ptr)
+			if !ok || p.Kind != pCell || len(p.Path) != 0 {
+				continue
+			}
+			if cur, ok := st.cells[p.Cell]; ok {
+				if _, isTerm := cur.(Term); !isTerm {
+					e.unsupported("loop modifies non-scalar captured variable %s", fv.Name())
+					continue
+				}
+			}
+			v := e.smt.fresh(p.Cell.name, e.ti.sortOf(p.Cell.typ))
+			st.cells[p.Cell] = v
+			e.assume(st, e.wellTypedDeep(st, p.Cell.typ, v))
+		}
 	}
 	for _, k := range sortedKeys(ms.comps) {
 		st.heap[k] = e.smt.fresh("H."+k, ms.comps[k])
